@@ -9,6 +9,7 @@ package vm
 
 import (
 	"context"
+	"fmt"
 	"reflect"
 
 	"github.com/mattn/anko/ast"
@@ -102,9 +103,15 @@ func zzConfigure(n interface{}) {
 	case *ast.MakeTypeExpr:
 		x.Name = "newtype"
 	case *ast.ArrayExpr:
-		x.TypeData = zzTypePool[zz.Choose(len(zzTypePool))]
+		// the grammar builds typed list literals with a slice type only
+		x.TypeData = []*ast.TypeStruct{nil, zzTypePool[5], zzTypePool[6],
+			{Kind: ast.TypeSlice, SubType: &ast.TypeStruct{Name: "nosuchtype"}, Dimensions: 1},
+			{Kind: ast.TypeSlice, SubType: &ast.TypeStruct{Name: "string"}, Dimensions: 1}}[zz.Choose(5)]
 	case *ast.MapExpr:
-		x.TypeData = zzTypePool[zz.Choose(len(zzTypePool))]
+		// ... and typed map literals with a map type only
+		x.TypeData = []*ast.TypeStruct{nil, zzTypePool[7], zzTypePool[8],
+			{Kind: ast.TypeMap, Key: &ast.TypeStruct{Name: "nosuchtype"}, SubType: &ast.TypeStruct{Name: "int64"}},
+			{Kind: ast.TypeMap, Key: &ast.TypeStruct{Name: "interface"}, SubType: &ast.TypeStruct{Name: "string"}}}[zz.Choose(5)]
 	case *ast.MakeExpr:
 		x.TypeData = zzTypePool[1+zz.Choose(len(zzTypePool)-1)]
 	}
@@ -125,7 +132,10 @@ func zzStepEnv() *env.Env {
 
 // zzRunNode runs the node through the public entry point RunContext
 // (Debug=false) and reports (value, err, panicked).
+var zzPanicMsg string
+
 func zzRunNode(e *env.Env, node interface{}, cat string) (v interface{}, err error, panicked bool) {
+	zzPanicMsg = ""
 	var stmt ast.Stmt
 	switch cat {
 	case "stmt":
@@ -145,6 +155,7 @@ func zzRunNode(e *env.Env, node interface{}, cat string) (v interface{}, err err
 				panic(r)
 			}
 			panicked = true
+			zzPanicMsg = fmt.Sprint(r)
 		}
 	}()
 	v, err = RunContext(context.Background(), e, &Options{Debug: false}, stmt)
@@ -244,7 +255,7 @@ func zzStepKind(k int, classes int) {
 	e := zzStepEnv()
 	v, err, panicked := zzRunNode(e, node, zzKindCat[k])
 	zz.Drain()
-	zz.Assert(!panicked, "C01.step.no-panic/"+kind)
+	zz.Assertf(!panicked, "C01.step.no-panic/"+kind, zzPanicMsg)
 	zz.Assert(zz.GoroutineCrashes() == 0, "C01.step.no-goroutine-crash/"+kind)
 	if panicked {
 		return
@@ -263,8 +274,8 @@ func zzStepKind(k int, classes int) {
 	}
 }
 
-// quick: the first 19 classes of the universe (through chan-open); thorough: all.
-func ZZ_C01_step_quick() { zzStepKind(zz.Choose(len(zzKinds)), uChanClosed) }
-func ZZ_C01_step()       { zzStepKind(zz.Choose(len(zzKinds)), uNumClasses) }
+// quick: the first 19 classes of the universe (through chan-open); thorough:
+// all.  The per-kind entry points ZZ_C01_k_<Kind>[_quick] are generated.
+const zzQuickClasses = uChanClosed
 
 var _ = reflect.ValueOf
